@@ -30,6 +30,7 @@ func checkC20(ctx *Ctx, r *Report) {
 	c20Typestate(ctx, r)
 	c20Unions(ctx, r)
 	c20SchemaAgreement(ctx, r)
+	c20ErrorDiscipline(ctx, r)
 }
 
 // ---------------------------------------------------------------------------
@@ -663,3 +664,149 @@ func (w *schemaWalker) compareType(t types.Type, s map[string]any, path, cons st
 }
 
 var _ = packages.NeedName
+
+// c20ErrorDiscipline: inside the configuration packages, the error returned by
+// a converter/loader (any cog function whose last result is `error`) must be
+// returned directly or bound to a variable that the very next statement (or the
+// same if-statement) tests with `!= nil` and answers with a return of a non-nil
+// error. An error that is merely remembered (break/continue, later overwritten)
+// lets a rejected rule or file load silently.
+func c20ErrorDiscipline(ctx *Ctx, r *Report) {
+	cfgPkgs := map[string]bool{modulePath + "/internal/yaml": true, modulePath + "/internal/codegen": true}
+	errT := types.Universe.Lookup("error").Type()
+	returnsErr := func(fn *types.Func) bool {
+		if fn == nil || fn.Pkg() == nil || !strings.HasPrefix(fn.Pkg().Path(), modulePath) {
+			return false
+		}
+		sig := fn.Type().(*types.Signature)
+		n := sig.Results().Len()
+		return n > 0 && types.Identical(sig.Results().At(n-1).Type(), errT)
+	}
+	for _, p := range ctx.Pkgs {
+		if !cfgPkgs[p.PkgPath] {
+			continue
+		}
+		info := p.TypesInfo
+		for _, f := range p.Syntax {
+			for _, d := range f.Decls {
+				fd, ok := d.(*ast.FuncDecl)
+				if !ok || fd.Body == nil {
+					continue
+				}
+				fobj, _ := info.Defs[fd.Name].(*types.Func)
+				name := ctx.FuncName(fobj)
+				parents := parentMap(fd)
+				seen := map[string]int{}
+				ast.Inspect(fd.Body, func(n ast.Node) bool {
+					call, ok := n.(*ast.CallExpr)
+					if !ok {
+						return true
+					}
+					fn := callee(info, call)
+					if !returnsErr(fn) {
+						return true
+					}
+					r.Count("config error-returning call sites", 1)
+					cons := name + " calls " + ctx.FuncName(fn)
+					seen[cons]++
+					if seen[cons] > 1 {
+						cons = fmt.Sprintf("%s #%d", cons, seen[cons])
+					}
+					ok2, why := errorHandled(info, parents, call)
+					if reason, exempt := c20ErrorExemptions[cons]; exempt && !ok2 {
+						// the exemption is only valid while the re-check it relies on exists and is itself checked
+						re := ctx.LookupMethod("internal/codegen", "Input", "LoadSchemas")
+						reFd, rep := ctx.DeclOf(re)
+						loader := ctx.LookupMethod("internal/codegen", "Input", "loader")
+						rechecked := false
+						if reFd != nil && loader != nil {
+							rparents := parentMap(reFd)
+							ast.Inspect(reFd.Body, func(m ast.Node) bool {
+								if c, ok := m.(*ast.CallExpr); ok && callee(rep.TypesInfo, c) == loader {
+									if h, _ := errorHandled(rep.TypesInfo, rparents, c); h {
+										rechecked = true
+									}
+								}
+								return true
+							})
+						}
+						if rechecked {
+							r.OK("cfgschema/error-checked", cons, call.Pos(), "exempt: "+reason)
+							return true
+						}
+					}
+					r.Check(ok2, "cfgschema/error-checked", cons, call.Pos(), "error is returned or checked immediately", "the error of "+ctx.FuncName(fn)+" "+why+": a rejected entry can load silently")
+					return true
+				})
+			}
+		}
+	}
+	r.Floor("config error-returning call sites", 40)
+}
+
+// One reasoned exemption per construct.
+var c20ErrorExemptions = map[string]string{
+	"internal/codegen.Pipeline.interpolateParameters calls internal/codegen.Input.InterpolateParameters": "the only error is Input.loader()'s 'empty input'; Input.LoadSchemas evaluates the same dispatch again and returns its error before any schema is loaded (re-verified on every run)",
+}
+
+func errorHandled(info *types.Info, parents map[ast.Node]ast.Node, call *ast.CallExpr) (bool, string) {
+	switch p := parents[call].(type) {
+	case *ast.ReturnStmt:
+		return true, ""
+	case *ast.AssignStmt:
+		if len(p.Rhs) != 1 || len(p.Lhs) == 0 {
+			return false, "is bound in a multi-value assignment"
+		}
+		errID, _ := p.Lhs[len(p.Lhs)-1].(*ast.Ident)
+		if errID == nil || errID.Name == "_" {
+			return false, "is discarded"
+		}
+		errObj := objOf(info, errID)
+		var check *ast.IfStmt
+		switch gp := parents[p].(type) {
+		case *ast.IfStmt:
+			if gp.Init == p {
+				check = gp
+			}
+		case *ast.BlockStmt:
+			for i, st := range gp.List {
+				if st == p && i+1 < len(gp.List) {
+					check, _ = gp.List[i+1].(*ast.IfStmt)
+				}
+			}
+		case *ast.CaseClause:
+			for i, st := range gp.Body {
+				if st == p && i+1 < len(gp.Body) {
+					check, _ = gp.Body[i+1].(*ast.IfStmt)
+				}
+			}
+		}
+		if check == nil {
+			return false, "is not tested by the next statement"
+		}
+		be, ok := ast.Unparen(check.Cond).(*ast.BinaryExpr)
+		if !ok || be.Op != token.NEQ || !isIdentOf(info, be.X, errObj) || !isNilIdent(info, be.Y) {
+			return false, "is not tested with `!= nil` by the next statement"
+		}
+		if len(check.Body.List) == 0 {
+			return false, "is tested but ignored"
+		}
+		rs, ok := check.Body.List[len(check.Body.List)-1].(*ast.ReturnStmt)
+		if !ok {
+			return false, "is tested, but the branch does not return (break/continue/fallthrough): the error can be overwritten or forgotten before it is reported"
+		}
+		if len(rs.Results) == 0 {
+			return true, "" // named results: err is the result variable
+		}
+		last := rs.Results[len(rs.Results)-1]
+		if isNilIdent(info, last) {
+			return false, "is tested, but the branch returns a nil error"
+		}
+		return true, ""
+	case *ast.ExprStmt:
+		return false, "is dropped (call used as a statement)"
+	case *ast.CallExpr, *ast.KeyValueExpr, *ast.CompositeLit:
+		return false, "is not bound to a variable"
+	}
+	return false, "is not checked in a recognised way"
+}
